@@ -421,4 +421,5 @@ func runC02(cw *caseWriter, tier string, seed uint64) {
 		runScenarios(cw, 7, seed*100000, 600, 12)
 	}
 	runC102(cw, tier, seed, 0)
+	runC104(cw, tier, seed, 1) // snapshot transfer inside the composed cluster system (Model/ClusterSnap.v)
 }
